@@ -62,15 +62,36 @@ def build_spec(h: int, r: int, forms: list[int], counts: list[int], order: list[
             n = counts[i % len(counts)] if counts else 1
             parts.append(["nt", f"p{i}"])
             body = ["seq", [["nt", f"n{i}"], ["crep", ["nt", f"x{i}"], f"int(<n{i}>)"]]]
+            if (i + len(order)) % 3 == 0 and n != 4:
+                # header / body layout: the length field is the LAST child of an earlier sibling subtree, the
+                # repetition sits behind a tag in a later one
+                body = ["seq", [["nt", f"h{i}"], ["nt", f"b{i}"]]]
+                rules.append([f"h{i}", ["seq", [["lit", "m"], ["lit", "v"], ["nt", f"n{i}"]]]])
+                rules.append([f"b{i}", ["seq", [["lit", "t"], ["crep", ["nt", f"x{i}"], f"int(<n{i}>)"]]]])
+                rules.append([f"p{i}", ["alt", [body, ["lit", "-"]]]])
+                rules.append([f"n{i}", ["alt", [["lit", "0"], ["lit", "1"], ["lit", "2"], ["lit", "3"]]]])
+                rules.append([f"x{i}", ["alt", [["lit", "a"], ["lit", "b"]]]])
+                word += "mv" + str(n) + "t" + "ab"[i % 2] * n
+                continue
             # n == 4 stands for "this record takes the alternative without the repetition"
             rules.append([f"p{i}", ["alt", [body, ["lit", "-"]]]])
             rules.append([f"n{i}", ["alt", [["lit", "0"], ["lit", "1"], ["lit", "2"], ["lit", "3"]]]])
             rules.append([f"x{i}", ["alt", [["lit", "a"], ["lit", "b"]]]])
             word += "-" if n == 4 else str(n) + "ab"[i % 2] * n
         else:
+            form = HARD_FORMS[forms[i % len(forms)] % len(HARD_FORMS)].replace("{i}", str(i))
+            if (i + len(order)) % 4 == 1 and not form.startswith("exists"):  # an existential needs a witness
+                # the constrained symbol is ABSENT from the satisfying tree (the other alternative is taken):
+                # nothing to check, the constraint holds
+                parts.append(["nt", f"o{i}"])
+                rules.append([f"o{i}", ["alt", [["nt", f"t{i}"], ["lit", "-"]]]])
+                rules.append([f"t{i}", ["alt", [["lit", "z"], ["lit", "y"]]]])
+                cons.append(form)
+                word += "-"
+                continue
             parts.append(["nt", f"t{i}"])
             rules.append([f"t{i}", ["alt", [["lit", "z"], ["lit", "y"]]]])
-            cons.append(HARD_FORMS[forms[i % len(forms)] % len(HARD_FORMS)].replace("{i}", str(i)))
+            cons.append(form)
             word += "z"
     spec = {"rules": [["start", ["seq", parts] if len(parts) > 1 else parts[0]]] + rules, "mode": "text",
             "alphabet": "ab", "constraints": cons}
@@ -95,14 +116,25 @@ def check_case(case: dict[str, Any], ctx: Any = None) -> list[str]:
     msgs: list[str] = []
     f = S.load(spec)
     trees = list(itertools.islice(f.grammar.parse_forest(word), 2))
+    if len(trees) == 0:
+        # the word spells a derivation with the right counts by construction: not accepting it is the defect
+        return [f"h={h} r={r}: the word {word!r}, which satisfies all {h + r} constraints by construction, is not accepted "
+                f"by parse_forest (0 trees)"]
     if len(trees) != 1:
         raise AssertionError(f"harness: expected one parse of {word!r}, got {len(trees)}\n{text}")
     tree = trees[0]
     f.grammar.populate_sources(tree)
-    # every constraint holds individually (by Fandango's own per-constraint check AND by construction)
+    # every constraint holds by construction (each field spells 'z' or is absent; every repetition has as many items
+    # as the digit in front of it says): a constraint object that rejects the tree rejects a satisfying tree
     for c in f.constraints:
-        if not c.check(tree):
-            raise AssertionError(f"harness: constructed tree violates {c.format_as_spec()}\n{text}\n{word}")
+        try:
+            ok = c.check(tree)
+        except Exception as e:
+            ok = f"raises {type(e).__name__}: {str(e)[:80]}"
+        if ok is not True:
+            msgs.append(f"h={h} r={r}: `{c.format_as_spec()}` answers {ok} for the tree of {word!r}, which satisfies it by construction")
+    if msgs:
+        return msgs[:3]
     n_rep = sum(1 for c in f.constraints if type(c).__name__ == "RepetitionBoundsConstraint")
     if n_rep != r or len(f.constraints) != h + r:
         raise AssertionError(f"harness: expected {h}+{r} constraints, spec has {len(f.constraints)} ({n_rep} bounds)")
